@@ -169,21 +169,52 @@ func (w *World) getPathInProc(m *fieldmask.FieldMask, root *Ty, path string) (st
 }
 
 var inChild bool
+var hangMemo = map[string]bool{}
+
+// bareBackslash: is there a backslash outside a double-quoted run?  (Only such a backslash can become
+// the token that never advances; inside quotes str() consumes it.)  Performance filter only: a wrong
+// "false" would show as a harness timeout, never as a wrong verdict.
+func bareBackslash(p string) bool {
+	for i := 0; i < len(p); i++ {
+		switch p[i] {
+		case '\\':
+			return true
+		case '"':
+			i++
+			for i < len(p) && p[i] != '"' {
+				if p[i] == '\\' {
+					i++
+				}
+				i++
+			}
+		}
+	}
+	return false
+}
 
 // getPath: a path containing a backslash may send GetPath into a loop that never advances
 // (found by this harness), so such calls are first tried in a child process under a CPU-time limit;
 // being killed by it is the outcome "crash" (the model's word for non-termination).
 func (w *World) getPath(c *Case, m *fieldmask.FieldMask, root *Ty, path string) (out string, pkey string, hang bool) {
-	if !inChild && strings.Contains(path, "\\") {
+	if !inChild && bareBackslash(path) {
 		x := *c
 		x.Op = "getpath"
 		x.GP = vl.Hex(path)
 		js, _ := json.Marshal(&x)
+		if h, ok := hangMemo[string(js)]; ok {
+			if h {
+				return "crash", "", true
+			}
+			out, pkey = w.getPathInProc(m, root, path)
+			return out, pkey, false
+		}
+		hangMemo[string(js)] = false
 		cmd := exec.Command(os.Args[0], "child")
 		cmd.Stdin = bytes.NewReader(js)
 		if _, err := cmd.Output(); err != nil {
 			if ee, ok := err.(*exec.ExitError); ok {
 				if ws, ok := ee.Sys().(syscall.WaitStatus); ok && ws.Signaled() {
+					hangMemo[string(js)] = true
 					return "crash", "", true // killed by its CPU-time limit
 				}
 			}
